@@ -64,6 +64,10 @@ theorem C09_parse_order (i j : Int)
     (Token.parseInt64 (Token.printInt i) < Token.parseInt64 (Token.printInt j)) ↔ i < j :=
   Token.parse_order i j hi hj
 
+/-- the token string of every int64 parses to that number (ops parsem, lessm on valid strings) -/
+theorem C09_parse_roundtrip (i : Int) (hlo : Token.int64Min ≤ i) (hhi : i ≤ Token.int64Max) :
+    Token.parseInt64 (Token.printInt i) = i := Token.parseInt64_printInt i hlo hhi
+
 theorem C09_parse_nat (n : Nat) : Token.parseNat (Token.natDigits n) = some n := Token.parseNat_natDigits n
 
 
@@ -178,6 +182,18 @@ theorem C09_routing_marker_order (enc : τ → ν → Enc) (m₁ m₂ : Meta τ)
   rw [C09_routing_from_metadata enc m₁ s₁ v₁ cs h₁ c₁, C09_routing_from_metadata enc m₂ s₂ v₂ cs h₂ c₂]
 
 end RoutingFromMetadata
+
+/-- **The partition key order used by the schema branch**: metadata.go builds `TableMetadata.PartitionKey` from the rows
+    of the schema's columns table — whatever order they arrive in (the server sorts them by column name) — so that the
+    key column with position `p` is the `p`-th component, given distinct positions. -/
+theorem C09_schema_partition_key (pk : List (String × Nat)) (hnd : (pk.map (·.2)).Nodup) :
+    (Routing.schemaPartitionKey pk).length = Routing.pkCount pk ∧
+    ∀ n p, (n, p) ∈ pk → (Routing.schemaPartitionKey pk)[p]? = some (some n) := by
+  refine ⟨by simp [Routing.schemaPartitionKey, Routing.place_length], ?_⟩
+  intro n p h
+  exact Routing.place_get pk _ hnd (by intro x hx; simpa using Routing.pkCount_gt pk x hx) (n, p) h
+
+example : Routing.schemaPartitionKey [("b", 1), ("z", 2), ("a", 0)] = [some "a", some "b", some "z"] := by decide
 
 /-- non-vacuity / test vector (toy encoder: a value is its own encoding; the column type is a length to pad to):
     `UPDATE t SET v = ? WHERE id = ?` with v "bigint" (8), id "int" (4): the key is the id value as a 4-byte int -/
